@@ -127,7 +127,7 @@ def main():
         ],
         "checks": checks,
         "not_applicable": na,
-        "notes": "All checks are generated-input searches against explicit oracles (see DESIGN.md). Known findings: known_findings.json. Exit codes: 0 held, 1 VIOLATION, 2 inconclusive (build failure, timeout, harness failure).",
+        "notes": "All checks are generated-input searches against explicit oracles (see DESIGN.md). Known findings: known_findings.json. Every check also re-runs the committed regression corpus regress/<ID>/ (shrunk failing cases of seeded changes and fixed defects). Exit codes: 0 held, 1 VIOLATION, 2 inconclusive (build failure, timeout, harness failure).",
     }
     with open(os.path.join(ROOT, "MANIFEST.json"), "w") as f:
         json.dump(m, f, indent=1)
